@@ -65,7 +65,9 @@ class Run:
     def end(self):
         st = self.rule_stats[self._cur]
         n = len(st["instances"])
-        if n < st["floor"]:
+        failed = st["obligations"] - st["discharged"]
+        # a rule that already reports a violation is not vacuous; the floor guards silent passes only
+        if n < st["floor"] and not failed:
             raise AnalysisError(
                 f"rule {self._cur}: only {n} instance(s) examined, floor is {st['floor']} "
                 f"(anchors moved or extraction broke)"
